@@ -175,3 +175,117 @@ def kind(case, model):
         return sz + (":miss-only" if "miss" in fs else ":no-lookup")
     except Exception:
         return "unparsed"
+
+
+# --------------------------------------------------------------------------------------------------
+# C05 through local resolution (local.rs is one of the property's anchors): cached records reach an
+# answer through resolve_local -- directly, through the cached-CNAME fallback, and merged behind zone
+# data.  Stream "local", op T: the cache is filled at clock 0, the clock advanced, then questions asked.
+# Oracle (implementation output only): no answer holds a record that came from the cache and whose TTL
+# has elapsed, or whose reported TTL is 0 or exceeds the time it has left.
+# --------------------------------------------------------------------------------------------------
+
+def _local_cases(rng, n):
+    from . import tok
+    names = [tok.name(x) for x in ("a.test.", "b.test.", "c.test.", "d.test.", "www.example.com.")]
+    cases = [
+        # regression shape: an expired, not yet pruned CNAME must not be served by the CNAME fallback
+        "local T 1200 _ %s %s corpus-expired-cname" % (
+            tok.rrs([tok.rr(names[0], tok.CNAME, 1, tok.rd_name(names[1])), tok.rr(names[1], tok.A, 300, tok.rd_a(0x01020304))]),
+            "|".join(tok.question(names[0], t) for t in (tok.A, tok.CNAME, tok.ANY, tok.TXT))),
+        "local T 2500 _ %s %s corpus-expired-mid-chain" % (
+            tok.rrs([tok.rr(names[0], tok.CNAME, 300, tok.rd_name(names[1])), tok.rr(names[1], tok.CNAME, 2, tok.rd_name(names[2])),
+                     tok.rr(names[2], tok.A, 300, tok.rd_a(5))]),
+            "|".join(tok.question(names[0], t) for t in (tok.A, tok.AAAA))),
+    ]
+    while len(cases) < n:
+        rrs = []
+        seen = set()
+        for _ in range(rng.randint(1, 6)):
+            owner = rng.choice(names)
+            ttl = rng.choice([1, 1, 2, 2, 5, 300])
+            if rng.random() < 0.5:
+                r = tok.rr(owner, tok.CNAME, ttl, tok.rd_name(rng.choice(names)))
+                key = (owner, tok.CNAME)
+            else:
+                t = rng.choice([tok.A, tok.A, tok.TXT])
+                r = tok.rr(owner, t, ttl, tok.rd_a(rng.randint(1, 9)) if t == tok.A else tok.rd_octets([rng.randint(0, 255)]))
+                key = (owner, t, r)
+            if key in seen:
+                continue
+            seen.add(key)
+            rrs.append(r)
+        ms = rng.choice([0, 1, 500, 999, 1000, 1001, 1500, 1999, 2000, 2500, 4999, 5000, 6000])
+        zones = "_"
+        if rng.random() < 0.3:
+            # a non-authoritative root zone with one record, so merged answers occur too
+            zones = "-~N~I" + tok.rr(rng.choice(names), tok.A, 60, tok.rd_a(0x0A000001))
+        qs = "|".join(tok.question(rng.choice(names), rng.choice([tok.A, tok.A, tok.CNAME, tok.ANY, tok.TXT])) for _ in range(rng.randint(1, 4)))
+        cases.append("local T %d %s %s %s gen" % (ms, zones, tok.rrs(rrs), qs))
+    return cases
+
+
+def _local_oracle(case, impl):
+    from . import tok
+    toks = case.split(" ")
+    ms = int(toks[2])
+    zone_rrs = set()
+    if toks[3] != "_":
+        for z in toks[3].split("|"):
+            ops = z.split("~")[2]
+            for op in (ops.split("+") if ops != "_" else []):
+                zone_rrs.add(op[1:].split(":")[0] + ":" + op[1:].split(":")[1] + ":" + op[1:].split(":")[4])
+    cached = {}
+    for r in tok.parse_rrs(toks[4]):
+        cached[(r["name"], r["type"], r["data"])] = r["ttl"]     # the last insertion wins
+    for part in impl.split("|"):
+        for half in part.split("!"):
+            m = half[1:] if half[:1] in "DAXNPCG" else ""
+            m = m[1:] if half[:2] in ("DA", "DN", "DX") else m
+            rrtok = m.split("/")[0] if m else ""
+            if not rrtok or rrtok == "_" or ":" not in rrtok:
+                continue
+            for x in rrtok.split(";"):
+                try:
+                    r = tok.parse_rr(x)
+                except Exception:
+                    continue
+                key = (r["name"], r["type"], r["data"])
+                if "%s:%d:%s" % key in zone_rrs:
+                    continue
+                if key in cached:
+                    left_ms = cached[key] * 1000 - ms
+                    if left_ms <= 0:
+                        return ("expired-record-served-by-local-resolution",
+                                "a cached record whose TTL (%d s) elapsed %d ms ago is part of an answer" % (cached[key], -left_ms))
+                    if r["ttl"] == 0 or r["ttl"] * 1000 > left_ms:
+                        return ("ttl-exceeds-time-left", "reported TTL %d s, %d ms left" % (r["ttl"], left_ms))
+    return None
+
+
+def extra(ctx):
+    from . import core
+    n = 600 if ctx["tier"] == "quick" else 30000
+    fails = []
+    for what, f in (("model", core.build_model_driver), ("impl", core.build_impl_driver)):
+        ok, out = f("local")
+        if not ok:
+            return ([core.Failure("local-driver-build", "%s driver of the local stream failed to build: %s" % (what, core.trunc(out[-600:], 600)),
+                                  found_input=False)], {})
+    cases = _local_cases(ctx["rng"], n)
+    mo = core.run_sharded(core.model_driver_path("local"), cases, ctx["run_dir"], "c05local-model")
+    io = core.run_sharded(core.impl_driver_path("local"), cases, ctx["run_dir"], "c05local-impl")
+    dis = 0
+    nontriv = 0
+    for c, m, i in zip(cases, mo, io):
+        f = _local_oracle(c, i)
+        if f is not None:
+            fails.append(core.Failure(f[0], f[1], c, i, m))
+        elif m != i:
+            dis += 1
+            if dis <= 3:
+                fails.append(core.Failure("local-correspondence", "model and implementation of resolve_local disagree on a clock-advanced case",
+                                          c, i, m, found_input=False))
+        if ":" in i:
+            nontriv += 1
+    return fails, {"local_clock_cases": len(cases), "local_disagreements": dis, "evaluations": len(cases), "distinct_nontrivial": nontriv}
